@@ -167,7 +167,8 @@ ZSTD_rescaleFreqs(optState_t* const optPtr,
                 optPtr->litSum = 0;
                 for (lit=0; lit<=MaxLit; lit++) {
                     U32 const scaleLog = 11;   /* scale to 2K */
-                    U32 const bitCost = HUF_getNbBitsFromCTable(optPtr->symbolCosts->huf.CTable, lit);
+                    /* a dictionary's table may use up to HUF_TABLELOG_MAX (12) bits */
+                    U32 const bitCost = MIN(HUF_getNbBitsFromCTable(optPtr->symbolCosts->huf.CTable, lit), scaleLog);
                     assert(bitCost <= scaleLog);
                     optPtr->litFreq[lit] = bitCost ? 1 << (scaleLog-bitCost) : 1 /*minimum to calculate cost*/;
                     optPtr->litSum += optPtr->litFreq[lit];
@@ -180,7 +181,7 @@ ZSTD_rescaleFreqs(optState_t* const optPtr,
                 for (ll=0; ll<=MaxLL; ll++) {
                     U32 const scaleLog = 10;   /* scale to 1K */
                     U32 const bitCost = FSE_getMaxNbBits(llstate.symbolTT, ll);
-                    assert(bitCost < scaleLog);
+                    assert(bitCost <= scaleLog);   /* == for a symbol absent from a 9-bit table */
                     optPtr->litLengthFreq[ll] = bitCost ? 1 << (scaleLog-bitCost) : 1 /*minimum to calculate cost*/;
                     optPtr->litLengthSum += optPtr->litLengthFreq[ll];
             }   }
@@ -192,7 +193,7 @@ ZSTD_rescaleFreqs(optState_t* const optPtr,
                 for (ml=0; ml<=MaxML; ml++) {
                     U32 const scaleLog = 10;
                     U32 const bitCost = FSE_getMaxNbBits(mlstate.symbolTT, ml);
-                    assert(bitCost < scaleLog);
+                    assert(bitCost <= scaleLog);   /* == for a symbol absent from a 9-bit table */
                     optPtr->matchLengthFreq[ml] = bitCost ? 1 << (scaleLog-bitCost) : 1 /*minimum to calculate cost*/;
                     optPtr->matchLengthSum += optPtr->matchLengthFreq[ml];
             }   }
